@@ -408,8 +408,15 @@ def run_jobs(fn, cfgs, nproc=None):
     if nproc <= 1 or len(cfgs) == 1 or os.environ.get("VERIF_SERIAL"):
         return [_run_job((fn, c)) for c in cfgs]
     ctx = mp.get_context("fork")
-    with ctx.Pool(min(nproc, len(cfgs)), maxtasksperchild=8) as pool:
-        return pool.map(_run_job, [(fn, c) for c in cfgs], chunksize=1)
+    out = []
+    prog = os.environ.get("VERIF_PROGRESS")
+    with ctx.Pool(min(nproc, len(cfgs)), maxtasksperchild=8, initializer=smt.die_with_parent) as pool:
+        for jr in pool.imap_unordered(_run_job, [(fn, c) for c in cfgs], chunksize=1):
+            out.append(jr)
+            if prog:
+                sys.stderr.write("[%d/%d] %.0fs %s inconclusive=%d violations=%d\n" % (len(out), len(cfgs), jr.get("job_s", 0), json.dumps(jr.get("cfg"))[:150], len(jr.get("inconclusive", [])), len(jr.get("violations", []))))
+                sys.stderr.flush()
+    return out
 
 
 def main_exit(code):
